@@ -111,6 +111,50 @@ theorem read_only_commits (db : DB) (i : Nat) (t : Txn) (ht : db.txn? i = some t
     (step db (.commit i)).1.versions = db.versions := by
   simp [step, ht, hl, hw, DB.setTxn]
 
+/-- **only a successful commit changes what is committed**: every other step of any transaction — begin, read,
+    write, discard, a refused or conflicting commit, a read from outside — leaves the committed versions and the clock
+    exactly as they were -/
+theorem only_commits_change_the_store (db : DB) (a : Act) (h : (step db a).2 ≠ .committed) :
+    (step db a).1.versions = db.versions ∧ (step db a).1.clock = db.clock := by
+  cases a with
+  | begin i => simp [step, DB.setTxn]
+  | outsideRead k => simp [step]
+  | read i k =>
+    simp only [step]
+    cases db.txn? i with
+    | none => exact ⟨rfl, rfl⟩
+    | some t => by_cases hl : t.live = true <;> simp [hl, DB.setTxn]
+  | write i k v => exact write_invisible db i k v
+  | discard i => exact discard_no_trace db i
+  | commit i =>
+    simp only [step] at h ⊢
+    cases hx : db.txn? i with
+    | none => exact ⟨rfl, rfl⟩
+    | some t =>
+      simp only [hx] at h ⊢
+      by_cases hl : t.live = true
+      · by_cases hw : t.writes.isEmpty = true
+        · simp [hl, hw, DB.setTxn]
+        · by_cases hc : hasConflict db.versions t = true
+          · simp [hl, hw, hc, DB.setTxn]
+          · simp [hl, hw, hc] at h
+      · simp [hl]
+
+/-- ... hence a whole schedule in which no commit succeeds — any number of transactions writing, reading, being
+    discarded or refused, in any interleaving — leaves no trace at all -/
+theorem schedules_without_commit_leave_no_trace (acts : List Act) : ∀ (db : DB),
+    (∀ o ∈ (runActs db acts).2, o ≠ .committed) →
+    (runActs db acts).1.versions = db.versions ∧ (runActs db acts).1.clock = db.clock := by
+  induction acts with
+  | nil => intro db _; exact ⟨rfl, rfl⟩
+  | cons a rest ih =>
+    intro db h
+    simp only [runActs] at h ⊢
+    have h1 : (step db a).2 ≠ .committed := h _ (by simp)
+    obtain ⟨hv, hc⟩ := only_commits_change_the_store db a h1
+    obtain ⟨hv2, hc2⟩ := ih (step db a).1 (fun o ho => h o (by simp [ho]))
+    exact ⟨hv2.trans hv, hc2.trans hc⟩
+
 /-! non-vacuity: two transactions increment the same key from the same snapshot -/
 def sched : List Act := [.begin 1, .begin 2, .read 1 7, .read 2 7, .write 1 7 (some 1), .write 2 7 (some 1),
   .commit 1, .outsideRead 7, .commit 2, .outsideRead 7]
@@ -125,5 +169,9 @@ def sched2 : List Act := [.begin 1, .begin 2, .read 1 7, .write 1 8 (some 5), .w
 example : (runActs {} sched2).2 =
     [.none, .none, .val none, .none, .none, .committed, .committed, .val none, .val (some 5), .val (some 6)] := by
   decide
+
+/-- a transaction that writes, reads its own write and is discarded; its late commit is refused -/
+example : (runActs {} [.begin 1, .write 1 7 (some 1), .read 1 7, .discard 1, .commit 1]).2 = [.none, .none, .val (some 1), .none, .notLive] ∧
+    (runActs {} [.begin 1, .write 1 7 (some 1), .read 1 7, .discard 1, .commit 1]).1.versions = [] := by decide
 
 end Defra.Props.C06
